@@ -44,4 +44,10 @@ theorem tr_shellEscape_invalid (s0 : UInt8) (buf : List UInt8) :
 example : Gen.tr_shellEscape 36 36 [1] = [1, 0x5C, 0x24] ∧ Gen.tr_shellEscape 65 65 [] = [65] ∧
     Gen.tr_shellEscape 0xFFFD 0xFF [] = [0x5C, 0x33, 0x37, 0x37] := by decide
 
+/-- FAIL CLOSED (second audit pass, X2/X3): the tie theorems of this file are about the
+definition(s) TRANSLATED FROM THE TREE UNDER TEST, not about the committed default the
+extractor falls back to when the source leaves the translated subset – in that
+case this obligation breaks and `./check` reports it (besides the note). -/
+theorem translated_from_tree_under_test : Gen.tr_shellEscape_extracted = true := by decide
+
 end Props.C18
